@@ -45,8 +45,8 @@ func main() { vlib.Run("C23", run) }
 const enumAlphabet = 27 // see enumOp
 
 func run(c *vlib.Ctx) {
-	c.Rule("stratum `rand`: histories of 2-8 ops {Pin(recursive|direct,name), PinWithMode, Unpin, Update(+-unpin), Flush} (autosync on or off) over a random DAG of 4-7 nodes with shared subtrees; stratum `enum2` (and `enum3` in thorough): ALL histories of length 2 (3) over a 27-op alphabet on the fixed DAG c2->{c1,c0}, c1->c0; in every history every prefix of every op's recorded write list is replayed and reopened, and every prefix of the repair writes of that reopen again; distinct = FNV of DAG+op list; non-trivial = the history had a crash point whose reopen performed index repair writes AND an op that deleted a pin record AND an op with >= 4 writes")
-	c.Cases("rand", c.N(120, 4000), randHistory)
+	c.Rule("stratum `rand`: histories of 2-8 ops {Pin(recursive|direct,name), PinWithMode, Unpin, Update(+-unpin), Flush} (autosync on or off) over a random DAG of 4-7 nodes with shared subtrees; stratum `enum2` (x autosync on/off; and `enum3` in thorough, crash points of the last op only): ALL histories of length 2 (3) over a 27-op alphabet {Pin x 3 CIDs x rec/direct x 2 names, Unpin x 3, Update x 6 pairs x +-unpin} on the fixed DAG c2->{c1,c0}, c1->c0; in every history every prefix of every op's recorded write list is replayed and reopened, and every prefix of the repair writes of that reopen again; distinct = FNV of DAG+op list; non-trivial = the history had a crash point whose reopen performed index repair writes AND an op that deleted a pin record AND an op with >= 4 writes")
+	c.Cases("rand", c.N(120, 2000), randHistory)
 	c.Cases("enum2", 2*enumAlphabet*enumAlphabet, func(k *vlib.Case) { enumHistory(k, 2) }) // x autosync on/off
 	if !c.Quick() {
 		c.Cases("enum3", enumAlphabet*enumAlphabet*enumAlphabet, func(k *vlib.Case) { enumHistory(k, 3) })
@@ -386,7 +386,7 @@ func (w *world) exec(p ipfspin.Pinner, o op) error {
 
 // runHistory executes the ops on a live pinner and enumerates the crash points
 // of each one.
-func (w *world) runHistory(ops []op, autosync bool) {
+func (w *world) runHistory(ops []op, autosync bool, onlyLast bool) {
 	k := w.k
 	ctx := context.Background()
 	live := newRecDS(nil)
@@ -399,7 +399,7 @@ func (w *world) runHistory(ops []op, autosync bool) {
 	}
 	k.Logf("autosync=%v", autosync)
 	live.takeLog()
-	for _, o := range ops {
+	for oi, o := range ops {
 		k.Logf("%s", o)
 		pre := live.snapshot()
 		before, err := w.pinnedSet(p)
@@ -429,6 +429,9 @@ func (w *world) runHistory(ops []op, autosync bool) {
 			must[i] = before[i] && after[i]
 		}
 		for j := 0; j <= len(ws); j++ {
+			if onlyLast && oi < len(ops)-1 {
+				break // crash points of the shorter prefixes are enumerated by the shorter strata
+			}
 			st := apply(pre, ws[:j])
 			w.crashPoint(o, opErr, pre, ws, j, st, must, 1)
 		}
@@ -618,7 +621,7 @@ func randHistory(k *vlib.Case) {
 			ops = append(ops, op{kind: "flush"})
 		}
 	}
-	w.runHistory(ops, r.Chance(2, 3))
+	w.runHistory(ops, r.Chance(2, 3), false)
 	w.finish()
 }
 
@@ -644,6 +647,6 @@ func enumHistory(k *vlib.Case, length int) {
 		ops = append(ops, enumOp(idx%enumAlphabet))
 		idx /= enumAlphabet
 	}
-	w.runHistory(ops, idx == 0) // the remaining digit selects autosync
+	w.runHistory(ops, idx == 0, length > 2) // the remaining digit selects autosync
 	w.finish()
 }
